@@ -77,6 +77,71 @@ def config_outcome(path):
         return ('raised', type(e).__name__)
 
 
+def session_history(ctx, rng, d):
+    """Several sessions on one file: configuration A is loaded, the application saves B (of the same length as A, or shorter, or
+    longer), restarts and loads B - a good load, whose backup copy must be B - and then a save is interrupted at offset k: the next
+    load must give B's settings (from the backup) or fail, never A's."""
+    from pyIRDecoder import xml_handler
+
+    def build(settings):
+        root = xml_handler.XMLRootElement('IRConfig')
+        root.database_url = 'http://h/x'
+        for nm, en, tol in settings:
+            el = xml_handler.XMLElement('IRProtocol', name=nm)
+            el.enabled, el.tolerance, el.frequency_tolerance = en, tol, 2
+            root.append(el)
+        return str(root)
+
+    def snap(root):
+        return [(e.name, e.enabled, e.tolerance) for e in root]
+
+    n = rng.randint(3, 6)
+    A = [('P%d' % i, i % 2 == 0, 10) for i in range(n)]
+    variants = {
+        'same length': [(nm, not en, 25 if i == 0 else tol) for i, (nm, en, tol) in enumerate(A[:2])] + A[2:],
+        'shorter': [(nm, en, 5) for nm, en, tol in A[:-1]],
+        'longer': A + [('Q', True, 12.5)],
+    }
+    path = os.path.join(d, 'hist.xml')
+    for label, B in variants.items():
+        ta, tb = build(A), build(B)
+        if label == 'same length' and len(ta) != len(tb):
+            continue
+        for f in (path, path + '.backup'):
+            if os.path.exists(f):
+                os.remove(f)
+        open(path, 'w').write(ta)
+        try:
+            xml_handler.XMLRootElement.handle_file(path)
+            open(path, 'w').write(tb)
+            r = xml_handler.XMLRootElement.handle_file(path)
+            want = snap(r)
+        except Exception as e:  # noqa
+            ctx.report('handle_file', 'good file does not load: ' + type(e).__name__, dict(variant=label), dict(variant=label, file=tb))
+            continue
+        bk = open(path + '.backup').read() if os.path.exists(path + '.backup') else None
+        ctx.count_eval(key=('history', label))
+        if bk is None or bk.strip() != tb.strip():
+            ctx.report('handle_file', 'backup not refreshed by a good load', dict(variant=label),
+                       dict(variant=label, scenario='load A, save B, load B: the backup still holds ' +
+                            ('A' if bk is not None and bk.strip() == ta.strip() else 'something else'),
+                            file_A=ta, file_B=tb, backup=bk))
+        for k in sorted(set([0, 1, len(tb) // 3, len(tb) // 2, len(tb) - 5, len(tb) - 1]) | set(rng.sample(range(len(tb)), 6))):
+            if k < 0 or tb[:k].strip() == tb.strip():
+                continue
+            open(path, 'w').write(tb[:k])
+            ctx.count_eval(key=('history', label, k))
+            try:
+                got = snap(xml_handler.XMLRootElement.handle_file(path))
+            except Exception:  # noqa
+                continue
+            if got != want:
+                ctx.report('handle_file', 'interrupted save falls back to an older configuration', dict(variant=label, offset=k),
+                           dict(variant=label, offset=k, file_A=ta, file_B=tb, loaded=[list(x) for x in got],
+                                last_good=[list(x) for x in want]))
+                break
+
+
 def run(ctx):
     vlib.import_repo()
     from pyIRDecoder import protocols, xml_handler
@@ -218,6 +283,7 @@ def run(ctx):
                 if not with_backup and out[0] == 'loaded' and not complete_prefix:
                     ctx.report('handle_file', 'truncated file accepted without a backup', dict(offset=k),
                                dict(offset=k, children_loaded=out[1]))
+        session_history(ctx, ctx.rng, d)
         ctx.extra['search'] = dict(offsets=len(offsets), file_length=len(good), protocols_in_file=n_good)
         ctx.sample(dict(file='small config, %d bytes' % len(files[0][1]), obligation='forall k < %d, complete tag (firstn k text) = false'
                         % len(files[0][1].rstrip())))
